@@ -41,6 +41,8 @@ def run(F, rep, tier):
     local_rule(F, rep, T)
     declaring_ops(F, rep, T)
     snapshot(F, rep, T)
+    import c01
+    c01.irp_late_read(F, rep, T, rule="SNAPSHOT")
 
 
 def defines_of(T, ops):
